@@ -14,7 +14,10 @@ def gen_ctor_prog(rng):
     for i in range(n):
         parent = rng.randint(0, i)
         kind = rng.choice(['sub_ele', 'sub_ele', 'sub_ele_ns'])
-        steps.append([kind, parent, rng.choice(X.NAMES), rng.choice(['urn:a', 'urn:c']), rng.choice([None, rng.choice(X.TEXTS)]),
+        # sub_ele_ns also with NO namespace (ns=None) - except below a root on which the caller himself declared a default namespace
+        # (lxml cannot un-declare it for such a child; that combination is the caller's own doing)
+        nss = ['urn:a', 'urn:c'] + ([None] if (kind == 'sub_ele_ns' and root_kind != 'new_ele+nsmap-default') else [])
+        steps.append([kind, parent, rng.choice(X.NAMES), rng.choice(nss), rng.choice([None, rng.choice(X.TEXTS)]),
                       rng.choice([None, ['k', rng.choice(X.TEXTS)]])])
     return steps
 
@@ -176,6 +179,31 @@ class C17(Check):
                 self._last_plain = {}
             self._last_plain[id(case)] = res
             return res
+        if k == 'bigpar' and not case.get('_child'):
+            # concurrent use of C-level parsers: a crash there must not take the check down with it
+            import os
+            import json as _json
+            r, w = os.pipe()
+            pid = os.fork()
+            if pid == 0:
+                try:
+                    os.close(r)
+                    out = self.run_impl(dict(case, _child=True))
+                    os.write(w, _json.dumps(out).encode())
+                finally:
+                    os._exit(0)
+            os.close(w)
+            data = b''
+            while True:
+                chunk = os.read(r, 65536)
+                if not chunk:
+                    break
+                data += chunk
+            os.close(r)
+            _, status = os.waitpid(pid, 0)
+            if os.WIFSIGNALED(status) or not data:
+                return {'errs': ['the process was killed by signal %s' % (os.WTERMSIG(status) if os.WIFSIGNALED(status) else '?')], 'n_err': 1}
+            return _json.loads(data.decode())
         if k == 'bigpar':
             import threading
             errs = []
